@@ -23,7 +23,7 @@ PROPERTY = "C26"
 LEVEL = "exploration"
 ENGINE = "sansio"
 TECHNIQUE = "runtime monitoring at the wire boundary of the real DNS layer; differential against an independent RFC 1035 codec"
-BUDGET = {"quick": (3000, 16), "thorough": (200_000, 200)}
+BUDGET = {"quick": (2200, 14), "thorough": (200_000, 200)}
 WORKERS = {"quick": 2, "thorough": 16}
 REQUIRED = ["delivered", "decodes", "same_meaning", "opaque_bytes_equal", "dir.query", "dir.response", "transport.udp", "transport.tcp",
             "with.rdata_compression", "with.opaque_c0"]
